@@ -11,6 +11,7 @@ def uringify(line, rng):
     p = line.split(" ")
     if p[0] in ("stream", "hwm"):
         p[1] = p[1].replace("tr=inproc", "tr=tcp").replace("tr=ipc", "tr=tcp")   # the backend serves tcp (and ipc) sessions
+        p[1] = p[1].replace(",noise=1", "")   # interfering peers pile up connections: that is the known finding of fan-in > 8
         extra = ",uring=1"
         if rng.random() < 0.3:
             extra += ",cork=1"
@@ -30,6 +31,7 @@ def workloads(rng, tier):
     out.append(["!churn uring=1 10 6 100000"])
     out.append(["!fanin uring=1 6"])
     out.append(["!fanin uring=1 %d" % rng.choice([9, 12, 16])])       # known finding: more than 8 connections
+    out.append(["slowdrip type=PULL,hsivl=600,uring=1 300 hff00000000000000017f03"])   # known finding: no handshake deadline
     return out
 
 
